@@ -495,7 +495,8 @@ func (c *compiler) compile(tok *token) []instruction {
 			}
 			if len(values) > 0 && len(target.Tokens) > 0 {
 				typ := typeFromToken(c, target.Tokens[0])
-				if slices.Contains([]Type{TypeUint8, TypeInt8, TypeUint32, TypeInt32, TypeFloat64}, typ) {
+				// numbers take the declared type; so does nil (var s []int = nil is var s []int)
+				if slices.Contains([]Type{TypeUint8, TypeInt8, TypeUint32, TypeInt32, TypeFloat64}, typ) || typ&typeMask >= nillableMin {
 					res = append(res, instruction{Code: codeCast, A: reg(typ)})
 				}
 			}
